@@ -214,7 +214,13 @@ def r15_2(ctx: Ctx, rep: Report) -> None:  # noqa: C901
         rep.ok(f"Acl.group: {snippet(st[-1])}", "groups replace the flat list", where=where(g, st[-1]))
     else:
         rep.violation("Acl.group", "self._items = ...", "the grouped list is never stored", where(g))
-    # adoption: AceGroup.items setter keeps Ace/Remark objects themselves
+    adoption_rule(ctx, rep)
+
+
+def adoption_rule(ctx: Ctx, rep: Report, rid: Optional[str] = None) -> None:
+    """AceGroup.items setter keeps Ace/Remark objects themselves (identifiers survive grouping)."""
+    if rid:
+        rep.rule(rid)
     rep.instance()
     s = ctx.func("AceGroup.items.setter")
     scfg = ctx.cfg(s)
